@@ -4,6 +4,8 @@
    RFC 3394 written in TLA+.
      C16.result   Success for a known device (+ correct MIC for join-requests); MICFailed for a wrong
                   join-request MIC; UnknownDevEUI for an unknown device
+     C16.fault    a request that meets a failing storage callback (device keys, KEK, AS-KEK label) is answered with an
+                  error result (mirrored like every answer), never with Success
      C16.mirror   the answer mirrors sender, receiver and transaction id (and is a JoinAns/RejoinAns)
      C16.decrypt  the device can decrypt the join-accept (well-formed 12/28-byte payload)
      C16.mic      ... and accepts its MIC (1.0 form, or the OptNeg form under JSIntKey)
@@ -47,11 +49,13 @@ SuccessFails(e) ==
                 ELSE IF e.kind # "join" /\ optneg /\ agree(J!Keys10Style(e)) THEN <<"C16.keys-rejoin-1.0-derivation">>
                 ELSE <<"C16.keys">>)
 
+AnyFault(e) == e.faults.dev \/ e.faults.nskek \/ e.faults.aslabel \/ e.faults.askek
 JoinFails(e) ==
   LET a == e.answer IN
   IF a.parse # "" THEN <<"C16.result">>
   ELSE Tag(Mirror(e), "C16.mirror")
-    \o (IF ~e.known THEN Tag(a.code = "UnknownDevEUI", "C16.result")
+    \o (IF AnyFault(e) THEN Tag(a.code # "Success", "C16.fault")      \* a storage fault: an error answer (still mirrored), never a Success
+        ELSE IF ~e.known THEN Tag(a.code = "UnknownDevEUI", "C16.result")
         ELSE IF e.kind = "join" /\ ~e.micok THEN Tag(a.code = "MICFailed", "C16.result")
         ELSE IF ~e.micok THEN <<>>                        \* rejoin-request with a wrong MIC: not covered by the statement
         ELSE IF e.kind # "join" /\ ~e.dl.optneg THEN Tag(a.code = "Success", "C16.result")   \* rejoin answers with OptNeg clear: DON'T-CARE beyond the result
